@@ -57,152 +57,130 @@ def run(E: Engine, rep: Report, tier: str) -> dict:
     rep.floor("OWN", 9)
 
     # --------------------------------------------------------------- FLOW
-    sched = E.cls(SCHED)
+    from .. import sym
+    from .symutil import S, arg, has, is_, mentions, sh
+
+    LAST = sym.Pattern("self[channel][-1]").term
+    LAST_TF = ("attr", LAST, "tf")
+
+    def duration_ok(d, guards: tuple = ()) -> bool:
+        """d is a duration the channel accepted: a validate/adjust result, the (validated) pulse's duration, or 0 /
+        a value known to be <= 0 on this path (nothing to adjust)."""
+        if d == ("const", 0) or d == ("attr", ("name", "pulse"), "duration"):
+            return True
+        if d[0] == "call" and d[1][0] == "attr" and d[1][2] in ("validate_duration", "adjust_duration"):
+            return True
+        if any(g == sym.mk_cmp("Eq", ("const", 0), d) or g == sym.mk_cmp("LtE", d, ("const", 0)) for g in guards):
+            return True
+        if d[0] == "ifexp":
+            c = d[1]
+            return duration_ok(d[2], guards + (c,)) and duration_ok(d[3], guards + (sym.mk_not(c),))
+        return False
+
+    def branches(t, conds: tuple = ()):
+        if t is not None and t[0] == "ifexp":
+            yield from branches(t[2], conds + (t[1],))
+            yield from branches(t[3], conds + (sym.mk_not(t[1]),))
+        else:
+            yield conds, t
+
     n_ctor = 0
+    per_fn = {}
     for mname in ("add_delay", "add_target", "make_next_pulse_slot"):
         f = E.method(SCHED, mname)
-        ab = abstractor(E.flow(f))
-        for n in ast.walk(f.node):
-            if not (isinstance(n, ast.Call) and (dotted(n.func) or "") == "_TimeSlot" and len(n.args) >= 3):
-                continue
+        Sf = S(E, f)
+        for l in [l for l in Sf.calls("_TimeSlot") if l.fn == f.short]:
             n_ctor += 1
-            ti, tf = ab.av(n.args[1]), ab.av(n.args[2])
-            where = E.where(f, n)
-            key = f"_Schedule.{mname}|{norm(n.args[0])[:14]}"
-            starts_at_last_end = "self.tf" in ti.roots and "idx:-1" in ti.tags and not any(r.endswith(".ti") for r in ti.roots)
-            if mname != "make_next_pulse_slot":
-                starts_at_last_end = starts_at_last_end and "Add" not in ti.tags and "Sub" not in ti.tags
-                extra = {r for r in ti.roots if r not in ("self.tf", "idx<-channel.tf", "const:-1")}
-                starts_at_last_end = starts_at_last_end and not extra
-            rep.check(starts_at_last_end, "FLOW", key + "|ti=previous-tf", f"ti provenance {ti.show()[:120]}", f"the start time of the new slot does not come (only) from the end of the current last slot: ti provenance {ti.show()[:300]}", where)
-            dur_ok = "Add" in tf.tags and ti.roots <= tf.roots and any(r.endswith((".validate_duration()", ".adjust_duration()")) or r == "pulse.duration" for r in tf.roots)
-            rep.check(dur_ok, "FLOW", key + "|tf=ti+validated-duration", "tf = ti + duration validated/adjusted by the channel", f"the end time is not `ti + <validated duration>`: tf provenance {tf.show()[:300]}", where)
-    if n_ctor < 4:
-        rep.error(f"only {n_ctor} _TimeSlot constructions found in the scheduler (expected >= 4)")
-    # make_next_pulse_slot: positive automatic delay goes through adjust_duration
-    f = E.method(SCHED, "make_next_pulse_slot")
-    ab = abstractor(E.flow(f))
-    ok = False
-    for n in ast.walk(f.node):
-        if isinstance(n, ast.If):
-            for conj in ab.literals(n.test):
-                for lit in conj:
-                    a = lit.atom
-                    if a is not None and a.rel == "Gt" and "const:0" in a.rhs.roots:
-                        for s in n.body:
-                            if isinstance(s, ast.Assign) and isinstance(s.value, ast.Call) and isinstance(s.value.func, ast.Attribute) and s.value.func.attr == "adjust_duration" and norm(s.targets[0]) == norm(n.test.left if isinstance(n.test, ast.Compare) else s.targets[0]):
-                                ok = True
-    rep.check(ok, "FLOW", "_Schedule.make_next_pulse_slot|delay>0-adjusted", "a positive automatic delay is adjusted to the channel's minimum duration / clock", "the automatic delay before a pulse no longer passes adjust_duration when positive", E.where(f))
-    # ADJ: the duration that enters a slot boundary is, on every path, the result of adjust/validate
-    # (or zero: a definition followed by a dominating `if d != 0 / > 0: d = adjust_duration(d)`)
-    for mname, var, use_pat in (("add_target", "delta", "tf"), ("make_next_pulse_slot", "delay_duration", "ti")):
-        f = E.method(SCHED, mname)
-        fl = E.flow(f)
-        dom = fl.dominators()
-        use_node = None
-        for n in ast.walk(f.node):
-            if isinstance(n, ast.Assign) and isinstance(n.targets[0], ast.Name) and n.targets[0].id == use_pat and isinstance(n.value, ast.BinOp) and isinstance(n.value.op, ast.Add) and var in (norm(n.value.left), norm(n.value.right)):
-                use_node = fl.node_of(n)
-        if use_node is None:
-            raise AnalysisError(f"anchor: `{use_pat} = ... + {var}` not found in _Schedule.{mname}")
-        adj_ifs = []
-        for node in fl.nodes:
-            st = node.stmt
-            if node.kind == "test" and isinstance(st, ast.If) and isinstance(st.test, ast.Compare) and norm(st.test.left) == var and isinstance(st.test.ops[0], (ast.NotEq, ast.Gt)) and norm(st.test.comparators[0]) == "0":
-                if any(isinstance(b, ast.Assign) and norm(b.targets[0]) == var and isinstance(b.value, ast.Call) and isinstance(b.value.func, ast.Attribute) and b.value.func.attr in ("adjust_duration", "validate_duration") for b in st.body):
-                    adj_ifs.append(node)
-        bad = []
-        for d in fl.reaching_defs(use_node.id, var):
-            if not isinstance(d, ast.AST):
-                bad.append(str(d))
-                continue
-            if isinstance(d, ast.Assign) and isinstance(d.value, ast.Call) and isinstance(d.value.func, ast.Attribute) and d.value.func.attr in ("adjust_duration", "validate_duration"):
-                continue
-            dn = fl.node_of(d)
-            ok = False
-            for a in adj_ifs:
-                if a.id in dom.get(use_node.id, set()) and dn is not None and a.id in fl.reachable_from(dn.id):
-                    ok = True
-            if not ok:
-                bad.append(norm(d)[:80])
-        rep.check(not bad, "FLOW", f"_Schedule.{mname}|{var}-adjusted-on-every-path", f"every definition of `{var}` reaching `{use_pat} = ... + {var}` is an adjust_duration result or is adjusted (when non-zero) before use",
-                  f"`{var}` can reach the slot boundary `{use_pat}` without passing adjust_duration: unadjusted definition(s) {bad} -- a delay/retarget shorter than min_duration or off the clock grid could be scheduled", E.where(f, use_node.stmt))
+            per_fn[mname] = per_fn.get(mname, 0) + 1
+            ti, tf = arg(l, 1, "ti"), arg(l, 2, "tf")
+            where = E.where(f, l.node)
+            key = f"_Schedule.{mname}|{sh(arg(l, 0, 'type'), 14)}"
+            tf_b = dict(branches(tf))
+            ok_ti = ok_tf = ti is not None and tf is not None
+            why = ""
+            for conds, t in branches(ti):
+                if not ok_ti:
+                    break
+                if t == ("const", -1) and tf_b.get(conds) == ("const", 0) and mname == "add_target" and any(c == sym.mk_not(("attr", ("idx", ("name", "self"), ("name", "channel")), "slots")) for c in conds):
+                    continue  # the initial target of an empty channel: the conventional (-1, 0) slot
+                start_extra = sym.mk_add([t, sym.mk_neg(LAST_TF)])
+                if mname != "make_next_pulse_slot":
+                    if t != LAST_TF:
+                        ok_ti, why = False, f"ti = {sh(t, 120)}"
+                else:
+                    # the automatic delay: zero/negative or adjusted
+                    if sym.contains(start_extra, LAST_TF) and not duration_ok(start_extra):
+                        pass
+                    if not duration_ok(start_extra):
+                        ok_ti, why = False, f"ti - last.tf = {sh(start_extra, 160)}"
+                t_end = tf_b.get(conds, tf if tf is not None and tf[0] != "ifexp" else None)
+                if t_end is None:
+                    ok_tf, why = False, f"tf = {sh(tf, 120)}"
+                    continue
+                d = sym.mk_add([t_end, sym.mk_neg(t)])
+                if not duration_ok(d):
+                    ok_tf, why = False, f"tf - ti = {sh(d, 160)}"
+            rep.check(ok_ti, "FLOW", key + "|ti=previous-tf", "the slot starts at the end of the channel's current last slot (plus an adjusted automatic delay for pulses)", f"the start time of the new slot is not the end of the current last slot (plus a delay accepted by the channel): {why}", where)
+            rep.check(ok_tf, "FLOW", key + "|tf=ti+validated-duration", "tf = ti + duration validated/adjusted by the channel", f"the end time is not `ti + <duration validated or adjusted by the channel>`: {why}", where)
+    if n_ctor < 3 or set(per_fn) != {"add_delay", "add_target", "make_next_pulse_slot"}:
+        rep.error(f"_TimeSlot constructions found per scheduler method: {per_fn} (expected at least one in each of add_delay, add_target, make_next_pulse_slot)")
     # the EOM buffer pulse's duration is adjusted as well
     en = E.method(SCHED, "enable_eom")
-    aben = abstractor(E.flow(en))
-    for n in ast.walk(en.node):
-        if isinstance(n, ast.Call) and (dotted(n.func) or "") == "Pulse.ConstantPulse" and n.args:
-            a = aben.av(n.args[0])
-            rep.check(any(r.endswith("adjust_duration()") for r in a.roots), "FLOW", "_Schedule.enable_eom|buffer-pulse-duration-adjusted", "EOM buffer pulse duration comes from adjust_duration", f"the EOM buffer pulse duration {norm(n.args[0])} does not pass adjust_duration", E.where(en, n))
+    for l in [l for l in S(E, en).calls("ConstantPulse") if l.fn == en.short]:
+        a = arg(l, 0, "duration")
+        rep.check(a is not None and is_(a, "Q_x.adjust_duration(Q_d)") is not None, "FLOW", "_Schedule.enable_eom|buffer-pulse-duration-adjusted", "EOM buffer pulse duration comes from adjust_duration", f"the EOM buffer pulse duration {sh(a, 80)} does not pass adjust_duration", E.where(en, l.node))
     # add_pulse inserts exactly slot.ti - last.tf
     f = E.method(SCHED, "add_pulse")
-    fl = E.flow(f)
-    ab = abstractor(fl)
-    add_delay = E.method(SCHED, "add_delay")
-    found = False
-    for node, _i, e in fl.all_events():
-        if e.kind == "call" and any(c.innermost() is add_delay for c, _m in e.callees):
-            a = ab.av(e.node.args[0])
-            found = True
-            ok = "Sub" in a.tags and any(r.endswith("make_next_pulse_slot().ti") for r in a.roots) and "self.tf" in a.roots and not ({"Add", "Mult"} & a.tags)
-            rep.check(ok, "FLOW", "_Schedule.add_pulse|delay=slot.ti-last.tf", "inserted delay = slot.ti - last.tf (no gap, no overlap)", f"the delay inserted before the pulse is not exactly slot.ti - last.tf: {a.show()[:300]}", E.where(f, e.node))
-    if not found:
-        raise AnalysisError("anchor: _Schedule.add_pulse no longer calls add_delay")
+    Sp = S(E, f)
+    dls = [l for l in Sp.calls("add_delay") if l.fn == f.short]
+    mk = [l for l in Sp.calls("make_next_pulse_slot") if l.fn == f.short]
+    if not dls or not mk:
+        raise AnalysisError("anchor: _Schedule.add_pulse no longer calls add_delay / make_next_pulse_slot")
+    for l in dls:
+        a = arg(l, 0, "duration")
+        ok = a == sym.mk_add([("attr", mk[-1].value, "ti"), sym.mk_neg(LAST_TF)]) and arg(l, 1, "channel") == ("name", "channel")
+        rep.check(ok, "FLOW", "_Schedule.add_pulse|delay=slot.ti-last.tf", "inserted delay = slot.ti - last.tf (no gap, no overlap)", f"the delay inserted before the pulse is not exactly slot.ti - last.tf: {sh(a, 200)}", E.where(f, l.node))
     # append order in add_pulse: the delay comes before the pulse slot
+    fl = E.flow(f)
+    add_delay = E.method(SCHED, "add_delay")
     evs = [(node.id, i, e) for node, i, e in fl.all_events()]
     i_delay = next((k for k, (_n, _i, e) in enumerate(evs) if e.kind == "call" and any(c.innermost() is add_delay for c, _m in e.callees)), None)
     i_app = next((k for k, (_n, _i, e) in enumerate(evs) if e.kind == "write" and e.op == "call:append"), None)
     rep.check(i_delay is not None and i_app is not None and i_delay < i_app, "FLOW", "_Schedule.add_pulse|delay-before-slot", "the automatic delay is appended before the pulse slot", "add_pulse appends the pulse slot before its delay: slots out of time order", E.where(f))
     # adjust_duration
     f = E.method(CHS, "adjust_duration")
-    ab = abstractor(E.flow(f))
-    rets = [n for n in ast.walk(f.node) if isinstance(n, ast.Return) and n.value is not None]
-    ok = False
-    for r in rets:
-        a = ab.av(r.value)
-        ok = any(x.endswith("validate_duration()") for x in a.roots) and "max" in a.tags and any("min_duration" in x for x in a.roots) and any(x.endswith("duration") and x.startswith("arg<-") for x in a.roots)
-    rep.check(ok, "FLOW", "_ChannelSchedule.adjust_duration|validate(max(d,min))", "adjust_duration = validate_duration(max(duration, min_duration))", "adjust_duration no longer lifts to the minimum duration and validates (clock multiple)", E.where(f))
+    r = S(E, f).ret
+    rep.check(is_(r, "self.channel_obj.validate_duration(max(duration, self.channel_obj.min_duration))") is not None, "FLOW", "_ChannelSchedule.adjust_duration|validate(max(d,min))", "adjust_duration = validate_duration(max(duration, min_duration))", f"adjust_duration no longer lifts to the minimum duration and validates (clock multiple): {sh(r)}", E.where(f))
     # wait_for_fall / EOM buffers / align hand adjust_duration results to add_delay
     for cq, mname in ((SCHED, "wait_for_fall"), (SCHED, "enable_eom"), (SCHED, "disable_eom")):
         f = E.method(cq, mname)
-        fl = E.flow(f)
-        ab = abstractor(fl)
-        for node, _i, e in fl.all_events():
-            if e.kind == "call" and any(c.innermost() is add_delay for c, _m in e.callees):
-                a = ab.av(e.node.args[0])
-                rep.check(any(r.endswith("adjust_duration()") for r in a.roots), "FLOW", f"_Schedule.{mname}|delay-adjusted", "delay duration comes from adjust_duration", f"{mname} adds a delay whose duration does not pass adjust_duration: {a.show()[:200]}", E.where(f, e.node))
+        for l in [l for l in S(E, f, inline=False).calls("add_delay") if l.fn == f.short]:
+            a = arg(l, 0, "duration")
+            rep.check(a is not None and is_(a, "Q_x.adjust_duration(Q_d)") is not None, "FLOW", f"_Schedule.{mname}|delay-adjusted", "delay duration comes from adjust_duration", f"{mname} adds a delay whose duration does not pass adjust_duration: {sh(a, 160)}", E.where(f, l.node))
     al = E.method(SEQ, "align")
-    fl = E.flow(al)
-    ab = abstractor(fl)
-    dl = E.method(SEQ, "_delay")
-    found = False
-    for node, _i, e in fl.all_events():
-        if e.kind == "call" and any(c.innermost() is dl for c, _m in e.callees):
-            found = True
-            a = ab.av(e.node.args[0])
-            rep.check(any(r.endswith("adjust_duration()") for r in a.roots), "FLOW", "Sequence.align|delay-adjusted", "alignment delay comes from adjust_duration", f"align adds a delay that does not pass adjust_duration: {a.show()[:200]}", E.where(al, e.node))
-    if not found:
+    dl = [l for l in S(E, al).calls("_delay") if l.fn == al.short]
+    if not dl:
         raise AnalysisError("anchor: Sequence.align no longer calls _delay")
-    rep.floor("FLOW", 14)
+    for l in dl:
+        a = arg(l, 0, "duration")
+        rep.check(a is not None and is_(a, "Q_x.adjust_duration(Q_d)") is not None, "FLOW", "Sequence.align|delay-adjusted", "alignment delay comes from adjust_duration", f"align adds a delay that does not pass adjust_duration: {sh(a, 160)}", E.where(al, l.node))
+    rep.floor("FLOW", 12)
 
     # -------------------------------------------------------------- GUARD
     gd = E.method(SCHED, "get_duration")
-    ok = False
-    for n in ast.walk(gd.node):
-        if isinstance(n, ast.Return) and isinstance(n.value, ast.Call) and (dotted(n.value.func) or "") == "max":
-            inner = n.value.args[0] if n.value.args else None
-            if isinstance(inner, (ast.GeneratorExp, ast.ListComp)) and "get_duration" in norm(inner.elt):
-                ok = True
-    rep.check(ok, "GUARD", "_Schedule.get_duration|max-over-channels", "sequence duration = max over channels", "_Schedule.get_duration no longer aggregates with max over the channels", E.where(gd))
+    r = S(E, gd).ret
+    m = has(r, "max(Q_c)")
+    ok = m is not None and m["Q_c"][0] == "comp" and is_(m["Q_c"][2], "self[Q_id].get_duration(include_fall_time)") is not None or (m is not None and m["Q_c"][0] == "comp" and is_(m["Q_c"][2], "self[Q_id].get_duration(include_fall_time=include_fall_time)") is not None)
+    rep.check(ok, "GUARD", "_Schedule.get_duration|max-over-channels", "sequence duration = max over channels", f"_Schedule.get_duration no longer aggregates with max over the channels: {sh(r, 200)}", E.where(gd))
     # all channels when channel is None
-    src = norm(gd.node)
-    rep.check("tuple(self.keys())" in src or "self.keys()" in src or "list(self)" in src, "GUARD", "_Schedule.get_duration|all-channels", "ranges over all declared channels when no channel is given", "_Schedule.get_duration no longer ranges over all channels", E.where(gd))
+    it = m["Q_c"][3][0][0] if ok else None
+    allch = it is not None and any(is_(t, "Q_x if channel is None else (channel,)") is not None and mentions(t, "keys", "self") for t in sym.subterms(it) if t[0] == "ifexp") or (it is not None and it[0] == "ifexp" and mentions(it[2] if is_(it[1], "channel is None") is not None else it[3], "keys"))
+    rep.check(bool(allch), "GUARD", "_Schedule.get_duration|all-channels", "ranges over all declared channels when no channel is given", f"_Schedule.get_duration no longer ranges over all channels when channel is None: iterates {sh(it, 120)}", E.where(gd))
     cgd = E.method(CHS, "get_duration")
-    ab = abstractor(E.flow(cgd))
-    rets = [n for n in ast.walk(cgd.node) if isinstance(n, ast.Return) and n.value is not None]
-    ok = bool(rets) and all(any(r == "self.slots.tf" for r in ab.av(r_.value).roots) and "max" in ab.av(r_.value).tags for r_ in rets)
-    rep.check(ok, "GUARD", "_ChannelSchedule.get_duration|last-slot-tf", "channel duration derives from the slots' tf (max with the pending fall time)", "channel duration no longer derives from slot end times", E.where(cgd))
-    rev = any(isinstance(n, ast.Subscript) and norm(n) == "self.slots[::-1]" for n in ast.walk(cgd.node))
+    r = S(E, cgd).ret
+    slot_attrs = {t[2] for t in sym.subterms(r) if t[0] == "attr" and (t[1][0] in ("elem", "item") or is_(t[1], "self.slots[-1]") is not None) and t[2] in ("ti", "tf")}
+    rep.check(slot_attrs == {"tf"} and has(r, "max(Q_a, Q_b)") is not None, "GUARD", "_ChannelSchedule.get_duration|last-slot-tf", "channel duration derives from the slots' tf (max with the pending fall time)", f"channel duration no longer derives from slot end times only: reads {sorted(slot_attrs)}", E.where(cgd))
+    rev = any(is_(t, "self.slots[::-1]") is not None or is_(t, "reversed(self.slots)") is not None or is_(t, "self.slots[-1]") is not None for t in sym.subterms(r))
     rep.check(rev, "GUARD", "_ChannelSchedule.get_duration|from-last-slot", "scans from the last slot backwards", "channel duration no longer starts from the last slot", E.where(cgd))
     rep.floor("GUARD", 4)
     return {"slot_write_sites": n_sites, "functions_analysed": len(P.functions), "call_sites": getattr(E, "_n_call_events", 0)}
